@@ -300,6 +300,19 @@ pub fn gen_v5(full: bool, f: &mut dyn FnMut(v5::codec::Encoded, Option<Bytes>)) 
         let mut p = publish_with(0, QoS::AtMostOnce, false, false, 0, bs("t"));
         p.properties.user_properties = vec![(long_str(n), bs(""))];
         f(c::Encoded::Publish(p, Some(by(b""))), Some(by(b"")));
+        // CONNECT has two property sections, its own and the Last Will's, each with its own length prefix: one of
+        // them near the boundary while the other stays small, and both near it (seeded change C09_r10 sized the
+        // will's prefix from the CONNECT section's length)
+        if full || n < 1000 {
+            let mut w = will_with(0);
+            w.content_type = Some(long_str(n));
+            f(c::Encoded::Packet(c::Packet::Connect(Box::new(connect_with(0, Some(w.clone()))))), None);
+            let mut cn = connect_with(0, Some(will_with(0)));
+            cn.auth_method = Some(long_str(n));
+            f(c::Encoded::Packet(c::Packet::Connect(Box::new(cn.clone()))), None);
+            cn.last_will = Some(w);
+            f(c::Encoded::Packet(c::Packet::Connect(Box::new(cn))), None);
+        }
     }
     // SUBSCRIBE
     for id in [0u32, 1, 127, 128, 16383, 16384, 2_097_151, 2_097_152, 268_435_455] {
